@@ -86,6 +86,11 @@ type Expansion struct {
 	Scratch string
 	Fset    *token.FileSet
 	Units   []*Unit
+	// Batch: per combo, the outcome of ONE request that asks for all corpus files at once: names of output
+	// files that differ from the output of the single-file requests (or an error text).
+	Batch map[string][]string
+	// BatchFiles: how many files each batch request asked for.
+	BatchFiles map[string]int
 }
 
 // Cleanup removes the scratch directory.
@@ -262,6 +267,9 @@ func Expand(combos []Combo, thorough bool) (*Expansion, error) {
 			if f.Only != "" && f.Only != combo.Runtime {
 				continue
 			}
+			if f.SingleFileOnly && combo.PerMessage {
+				continue
+			}
 			u := &Unit{File: f, Combo: combo, FMFiles: map[string]string{}, Dir: filepath.Join(mod, combo.String(), f.Pkg)}
 			ex.Units = append(ex.Units, u)
 			req := request(f, byPkg, combo.Params(f.Opts))
@@ -322,6 +330,66 @@ func Expand(combos []Combo, thorough bool) (*Expansion, error) {
 				_ = os.MkdirAll(filepath.Dir(p), 0o755)
 				_ = os.WriteFile(p, []byte(content), 0o644)
 			}
+		}
+	}
+	// one request per combo that asks for every (option-free) corpus file at once: the output for a file must
+	// not depend on what else is in the request
+	ex.Batch = map[string][]string{}
+	ex.BatchFiles = map[string]int{}
+	for _, combo := range combos {
+		base := "csvcorpus/" + combo.String()
+		files := Corpus(base, thorough)
+		byPkg := map[string]*File{}
+		for _, f := range files {
+			byPkg[f.Pkg] = f
+		}
+		req := &pluginpb.CodeGeneratorRequest{Parameter: proto.String(combo.Params(""))}
+		seen := map[string]bool{}
+		want := map[string]string{}
+		for _, u := range ex.Units {
+			if u.Combo != combo || u.File.Opts != "" || u.PluginError != "" || u.PBError != "" {
+				continue
+			}
+			one := request(u.File, byPkg, combo.Params(""))
+			for _, fd := range one.ProtoFile {
+				if !seen[fd.GetName()] {
+					seen[fd.GetName()] = true
+					req.ProtoFile = append(req.ProtoFile, fd)
+				}
+			}
+			req.FileToGenerate = append(req.FileToGenerate, u.File.FD.GetName())
+			for n, c := range u.FMFiles {
+				want[n] = c
+			}
+		}
+		ex.BatchFiles[combo.String()] = len(req.FileToGenerate)
+		if len(req.FileToGenerate) < 2 {
+			continue
+		}
+		resp, err := runPlugin(bin, req)
+		switch {
+		case err != nil:
+			ex.Batch[combo.String()] = []string{"generator failed on the combined request: " + err.Error()}
+		case resp.Error != nil:
+			ex.Batch[combo.String()] = []string{"generator reports an error on the combined request: " + resp.GetError()}
+		default:
+			got := map[string]string{}
+			for _, rf := range resp.File {
+				got[rf.GetName()] += rf.GetContent()
+			}
+			var diff []string
+			for n, c := range want {
+				if got[n] != c {
+					diff = append(diff, n)
+				}
+			}
+			for n := range got {
+				if _, ok := want[n]; !ok {
+					diff = append(diff, n+" (extra)")
+				}
+			}
+			sort.Strings(diff)
+			ex.Batch[combo.String()] = diff
 		}
 	}
 	// type-check everything that was generated
